@@ -660,7 +660,7 @@ func TestVerifC17Arrival(t *testing.T) {
 	r.Expect("all-permutations:single-node", "nodes:1", "nodes:2", "nodes:3", "coordinator:non-first", "replicas:2",
 		"tie:Min:extreme-tied-across-shards", "tie:Max:extreme-tied-across-shards", "tie:MinRowFiltered:extreme-row-in-several-shards")
 
-	n := r.N(16, 900)
+	n := r.N(16, 640)
 	r.Cases("data", n, func(ci int, id string, rng *vk.Rand) {
 		d := c17GenData(rng)
 		if r.WantSample() {
